@@ -1402,6 +1402,7 @@ fn exec_tamper_front(seed: u64) -> String {
         Ok(false)
     };
     let mut case = 0u64;
+    let mut failures: Vec<String> = Vec::new();
     for (pid, lens) in &packs {
         let bytes = h.be.get(FileType::Pack, pid).unwrap_or_default();
         // (name, prefix, may a stale index find ANOTHER valid blob at a recorded offset?)
@@ -1465,9 +1466,13 @@ fn exec_tamper_front(seed: u64) -> String {
             })();
             h.be.put_raw(FileType::Pack, *pid, bytes.clone());
             if let Err(e) = res {
-                return e;
+                failures.push(e);
             }
         }
+    }
+    // all prefixes are tried; reported is the gravest outcome (other content returned without error), else the first one
+    if let Some(e) = failures.iter().find(|e| e.contains("changed-content")).or(failures.first()) {
+        return e.clone();
     }
     // the untampered repository is still what it was
     match read_everything(&h, &snaps) {
